@@ -65,8 +65,17 @@ def h(t, part):
                 continue
             ns = p.namespace or '/'
             seen_connects.append((ns, p.data))
-            k = t.choice(3) if plan['answers'] == 'any' else 0
-            if k == 0:
+            # (with wait=False the outcome for several namespaces depends on the order of the answers: only single requests)
+            may_end = plan.get('may_end')
+            k = t.choice(4 if may_end else 3) if plan['answers'] == 'any' else 0
+            if k == 3:
+                # accepted and ended at once (what a server with always_connect sends for a refusal): CONNECT, then DISCONNECT
+                issued['n'] += 1
+                accepted_then_ended.append(ns)
+                ever_accepted['v'] = True
+                out.append(w.P(packet.CONNECT, data={'sid': 'sid%d' % issued['n']}, namespace=ns))
+                out.append(w.P(packet.DISCONNECT, namespace=ns))
+            elif k == 0:
                 issued['n'] += 1
                 sid = 'sid%d' % issued['n']
                 server_view[ns] = sid
@@ -78,7 +87,7 @@ def h(t, part):
             # k == 2: silence
         return [worlds.encode_frames(p)[0] for p in out]
 
-    seen_connects, refused = [], []
+    seen_connects, refused, accepted_then_ended = [], [], []
     ever_accepted = {'v': False}
     stop = {'v': False}
     if asyncio_:
@@ -129,7 +138,8 @@ def h(t, part):
             exp_auth = [{}, {'k': x}, {'c': x}][authk]
             wait = part['wait']
             plan['answers'] = 'any'
-            del seen_connects[:], refused[:], ev[:]
+            plan['may_end'] = wait or len(nss) == 1
+            del seen_connects[:], refused[:], ev[:], accepted_then_ended[:]
             server_view.clear()
             ever_accepted['v'] = False
             w.take()
@@ -145,7 +155,11 @@ def h(t, part):
                     w.drv.loop.run_until(lambda: len(w.eio.out) <= w.pos and not w.drv.loop.ready)
                 else:
                     hook(None, None)
-            if sorted(s[0] for s in seen_connects) != sorted(nss):
+            sent_for = sorted(s[0] for s in seen_connects)
+            # (a server that ends the only accepted namespace makes the client close the transport: later CONNECTs cannot be
+            # sent and later answers are not delivered)
+            cut_short = bool(accepted_then_ended) and w.eio.state == 'disconnected'
+            if sent_for != sorted(nss) and not (cut_short and len(set(sent_for)) == len(sent_for) and set(sent_for) <= set(nss)):
                 return Fail('client:connect-packets', 'requested %r, CONNECT sent for %r' % (nss, seen_connects))
             for ns, data in seen_connects:
                 if not (data == exp_auth):
@@ -154,6 +168,8 @@ def h(t, part):
             t.reached('connect')
             for ns in refused:
                 got = [e for e in ev if e[0] == 'connect_error' and e[1] == ns]
+                if cut_short and not got:
+                    continue
                 if got != [('connect_error', ns, 'no', ns)] and got != [('connect_error', ns, {'message': 'no', 'data': ns})]:
                     return Fail('client:connect_error-handler', 'refusal of %s reported as %r' % (ns, got))
             if wait:
@@ -166,8 +182,13 @@ def h(t, part):
                     server_view.clear()     # the transport is closed: the server forgets everything
                     continue
             conn_calls = sorted(e[1] for e in ev if e[0] == 'connect')
-            if conn_calls != sorted(server_view):
-                return Fail('client:connect-handler-calls', 'accepted %r, connect handler ran for %r' % (sorted(server_view), conn_calls))
+            if conn_calls != sorted(list(server_view) + accepted_then_ended):
+                return Fail('client:connect-handler-calls', 'accepted %r (ended at once: %r), connect handler ran for %r' % (
+                    sorted(server_view), accepted_then_ended, conn_calls))
+            disc_calls = sorted(e[1] for e in ev if e[0] == 'disconnect')
+            if disc_calls != sorted(accepted_then_ended):
+                return Fail('client:disconnect-handler-calls:ended-during-connect', 'the server ended %r right after accepting; '
+                            'disconnect handler ran for %r' % (accepted_then_ended, disc_calls))
             if not wait and '/' in refused:
                 # documented: refusal of the default namespace ends the connection attempt on the client side
                 return None
@@ -326,7 +347,7 @@ CHECKS = [dict(name='client-life', fn=h, parts=parts, budget={'quick': 180, 'tho
 META = dict(
     explanation='Real Client/AsyncClient on the fake engine.io client with the harness as server: connect() with every '
                 'subset/order of two namespaces (and a pair of non-default ones; and without namespaces, with function handlers, class-based namespaces and a catch-all registered for the same three names), auth as nothing / value / callable, wait on and off, every pattern of '
-                'accept / refuse / silence per namespace; then a connected life (emit with and without callback on '
+                'accept / refuse / silence / accept-and-end-at-once per namespace; then a connected life (emit with and without callback on '
                 'connected and unconnected namespaces, the server ending one namespace, half a binary packet, '
                 'disconnect(), transport loss, server close); then a fresh connection into which a late ACK and a stray '
                 'attachment are sent. After every step the client\'s namespaces / get_sid / connected are compared with '
